@@ -228,3 +228,9 @@ func VerifProphetLive(a Algorithm) (own map[bpv7.EndpointID]float64, peers map[b
 	}
 	return nil, nil
 }
+
+// VerifProphetOf returns the PRoPHET instance behind an algorithm (nil if it is none).
+func VerifProphetOf(a Algorithm) *Prophet {
+	p, _ := VerifUnwrap(a).(*Prophet)
+	return p
+}
